@@ -32,6 +32,11 @@ type HubCase struct {
 	Settle    bool      `json:"settle"` // afterwards craft the two settlement proposals
 	SettleMut string    `json:"settlemut"`
 	FinalV    [2]uint64 `json:"finalv"` // final balances of the virtual channel (same sum)
+	// Second: once the virtual channel is funded, a SECOND virtual channel is
+	// funded through the same two ledger channels; its proposal on channel MutOn
+	// is entirely correct for the new channel but ("relabel-other", "other-imap")
+	// edits the locked entry of the first one
+	Second string `json:"second,omitempty"`
 }
 
 var hubMuts = []string{"none", "none", "hub-pays-extra", "hub-pays-other-share", "peer-pays-less", "amount+1", "other-locked-added", "imap-swapped", "imap-swapped-consistent", "imap-swapped-consistent"}
@@ -50,6 +55,7 @@ func drawHubCase(t *rapid.T) HubCase {
 	tot := c.VBals[0] + c.VBals[1]
 	f0 := uint64(rapid.IntRange(0, int(tot)).Draw(t, "f0"))
 	c.FinalV = [2]uint64{f0, tot - f0}
+	c.Second = rapid.SampledFrom([]string{"", "", "none", "relabel-other", "other-imap"}).Draw(t, "second")
 	return c
 }
 
@@ -268,6 +274,7 @@ func runHubCase(c HubCase) *h.Outcome {
 	env.Quiesce(40*time.Millisecond, sim.HangLimit)
 
 	// ---- oracle: what did the hub sign on its two ledger channels?
+	var secondID channel.ID         // id of the second virtual channel once its funding was proposed
 	finals := [][2]uint64{c.FinalV} // final states of the virtual channel the adversary's two keys have signed
 	judgeAll := func() *h.Failure {
 		settledWith := [2]map[int]bool{}
@@ -303,6 +310,19 @@ func runHubCase(c HubCase) *h.Outcome {
 					continue
 				case len(added) == 1 && len(removed) == 0:
 					x := added[0]
+					if x.ID == secondID && secondID != (channel.ID{}) {
+						// the second virtual channel: balances (1,1)
+						w2 := remap([]channel.Bal{bal(1), bal(1)}, x.IndexMap, 2)
+						for p := 0; p < 2; p++ {
+							if d := new(big.Int).Sub(cur.Balances[0][p], next.Balances[0][p]); d.Cmp(w2[p]) != 0 {
+								return h.Failf("hub-countersigned-unsafe:"+kind, "funding of the second virtual channel on ledger channel %d changes participant %d's balance by %v instead of %v", i, p, d, w2[p])
+							}
+						}
+						if x.Bals[0].Cmp(bal(2)) != 0 {
+							return h.Failf("hub-countersigned-unsafe:"+kind, "the funding sub-allocation of the second virtual channel does not lock its total")
+						}
+						continue
+					}
 					if x.ID != vparams.ID() {
 						return h.Failf("hub-countersigned-unsafe:"+kind, "the hub signed the funding of a channel it does not take part in")
 					}
@@ -396,6 +416,65 @@ func runHubCase(c HubCase) *h.Outcome {
 	if funded == 2 {
 		o.Class("hub:virtual-channel-funded")
 	}
+	// ---- a second virtual channel through the same ledger channels
+	if c.Second != "" && funded == 2 {
+		o.Class("hub:second-virtual-channel:" + c.Second)
+		vparams2 := channel.NewParamsUnsafe(10, []map[wallet.BackendID]wallet.Address{{0: M[0].Acc.Address()}, {0: M[1].Acc.Address()}},
+			channel.NoApp(), big.NewInt(999000+int64(c.V)), false, true, channel.ZeroAux)
+		st2 := &channel.State{ID: vparams2.ID(), Version: 0, App: channel.NoApp(), Data: channel.NoData(),
+			Allocation: *sim.MakeAlloc([]uint64{asset0}, [][2]*big.Int{{bal(1), bal(1)}})}
+		v02 := channel.SignedState{Params: vparams2, State: st2, Sigs: []wallet.Sig{M[0].SignState(st2), M[1].SignState(st2)}}
+		for i := 0; i < 2; i++ {
+			cur := tryState(hch[i])
+			if cur == nil {
+				break
+			}
+			hI, mI := int(hch[i].Idx()), int(mch[i].Idx())
+			imap := make([]channel.Index, 2)
+			imap[i], imap[1-i] = channel.Index(mI), channel.Index(hI)
+			s := cur.Clone()
+			s.Version++
+			s.Balances[0][mI] = new(big.Int).Sub(s.Balances[0][mI], bal(1))
+			s.Balances[0][hI] = new(big.Int).Sub(s.Balances[0][hI], bal(1))
+			if s.Balances[0][mI].Sign() < 0 || s.Balances[0][hI].Sign() < 0 {
+				break
+			}
+			mut := "none"
+			if i == c.MutOn {
+				mut = c.Second
+			}
+			switch mut {
+			case "relabel-other":
+				for k := range s.Locked {
+					if s.Locked[k].ID == vparams.ID() {
+						s.Locked[k].ID[3] ^= 0x10
+					}
+				}
+			case "other-imap":
+				for k := range s.Locked {
+					if s.Locked[k].ID == vparams.ID() && len(s.Locked[k].IndexMap) == 2 {
+						im := append([]channel.Index(nil), s.Locked[k].IndexMap...)
+						im[0], im[1] = im[1], im[0]
+						s.Locked[k].IndexMap = im
+					}
+				}
+			}
+			s.Locked = append(s.Locked, *channel.NewSubAlloc(vparams2.ID(), []channel.Bal{bal(2)}, imap))
+			if mut != "none" {
+				near++
+			}
+			expected[enc(s)] = expect{cur: cur, kind: "vcfund2:" + mut}
+			_ = M[i].Inject(H, &client.VirtualChannelFundingProposalMsg{
+				ChannelUpdateMsg: client.ChannelUpdateMsg{ChannelUpdate: client.ChannelUpdate{State: s, ActorIdx: channel.Index(mI)}, Sig: M[i].SignState(s)},
+				Initial:          v02, IndexMap: imap})
+		}
+		env.Quiesce(40*time.Millisecond, sim.HangLimit)
+		secondID = vparams2.ID()
+		if f := judgeAll(); f != nil {
+			o.Fail = f
+			return o
+		}
+	}
 	// ---- settlement proposals
 	if c.Settle && funded == 2 {
 		o.Class("hub:settle:" + c.SettleMut)
@@ -405,7 +484,13 @@ func runHubCase(c HubCase) *h.Outcome {
 			if i == c.MutOn {
 				mut = c.SettleMut
 			}
-			cur := hch[i].State()
+			cur := tryState(hch[i])
+			if cur == nil {
+				// a handler of the hub still keeps this channel (an unmatched proposal
+				// is kept for 10 s): no settlement in this case
+				o.Class("hub:settle-skipped-channel-busy")
+				break
+			}
 			hI, mI := int(hch[i].Idx()), int(mch[i].Idx())
 			sa, _ := cur.SubAlloc(vparams.ID())
 			useFin := fin
